@@ -67,8 +67,8 @@ NoAssign == {}
 AllocWithEmpty == {[E |-> RawLeaves({1, 2}) \cup RawPars({1, 2}, 0, 1, {0, 2}, {0}), n |-> 3]}
 
 AllocThorough ==
-    {[E |-> RawLeaves({1, 2, 3, 4}) \cup RawPars({1, 2, 3, 4}, 1, 2, {0, 1, 2, 3, 7}, {0, -1, 1, 2})
+    {[E |-> RawLeaves({1, 2, 3, 4}) \cup RawPars({1, 2, 3, 4}, 1, 2, {0, 2, 3, 7}, {0, -1, 2})
               \cup RawPars({1, 2}, 3, 3, {0, 2, 4}, {0, -1, 3}), n |-> 2],
-     [E |-> RawLeaves({1, 3}) \cup RawPars({1, 2}, 1, 2, {0, 1, 3}, {0, -1, 2}), n |-> 3]}
+     [E |-> RawLeaves({1, 3}) \cup RawPars({1, 2}, 1, 2, {0, 3}, {0, -1, 2}), n |-> 3]}
 AssignThorough == {[h |-> 3, cores |-> 1..5, n |-> 20], [h |-> 4, cores |-> {1, 2, 3}, n |-> 16]}
 =============================================================================
